@@ -2,5 +2,6 @@
 (* Model-checking instances of BatchingCollate: constants a .cfg cannot hold. *)
 EXTENDS BatchingCollate
 AllKinds == {"spect", "lang", "window", "wtable"}
+FrameKinds == {"spect", "window"}
 ASSUME WindowAgrees
 =============================================================================
